@@ -2183,6 +2183,7 @@ func TestProp(t *testing.T) {
 	rep.Assume("the inner providers are scripted fakes that mutate the session they are handed the way SSOProvider / OktaProvider do; the middlewares and singleflight are the shipped code")
 	rep.Assume("in a subset of steered histories and in every same-subject wrapper scenario the joins are CONFIRMED from outside: a goroutine dump taken while the leader is held shows the follower inside sync.WaitGroup.Wait called from singleflight.Do (it has joined); a confirmed joiner that executes fn / the inner provider itself is a violation. Independently, per key the counts told to executing callers must equal the number of callers that did not execute (sound for every schedule). fn returns a unique id, untyped nil or a typed nil pointer (with and without error); with nil values executions are identified by the side log (who ran fn)")
 	rep.Assume("same-subject wrapper scenarios give every follower a DISTINCT session sharing only the token the endpoint is keyed by (other lifetime deadline, e-mail, user, authorized upstream, provider slug/type, other non-key token; for the auth service also other deadlines/groups where the method never updates them): after a merged call the fields the method never updates must be exactly what the follower passed in, and the fields the executing caller's session had updated must equal the executing caller's. Updatable fields that a method leaves alone but the proxy middleware copies anyway (RefreshDeadline on validation, ValidDeadline on refresh) are a don't-care: inputs agree on them")
+	rep.Assume("slow-leader slice (generic group and every coalesced wrapper method; all cases run in parallel): the leader is held inside fn / the inner provider for 1 s, 2.5 s, 4 s and 6 s of real time, followers are launched as soon as it is inside, late-comers after the release; the real-time hold only creates the opportunity (a waiter that gives up), the verdict is the unchanged history oracle; a caller that never returns is the watchdog's business (inconclusive)")
 	rep.Assume("Revoke's subject is taken to be the access token (the wrapper's key); sessions sharing an access token but not a refresh token are not generated")
 
 	replaying := env.Replay != ""
